@@ -160,11 +160,20 @@ func validateProtocolSequenceNames(env *Environment, errorSink *validation.Error
 
 func validateStreams(env *Environment, errorSink *validation.ErrorSink) *Environment {
 	VisitWithContext(env, nil, func(self VisitorWithContext[Node], node Node, context Node) {
-		switch node.(type) {
+		switch t := node.(type) {
 		case TypeDefinition:
 			self.VisitChildren(node, node)
+		case *ProtocolStep:
+			self.VisitChildren(node, node)
 		case *Stream:
-			if _, isProtocol := (context).(*ProtocolDefinition); !isProtocol {
+			// only allowed as the outermost type of a protocol step
+			allowed := false
+			if step, isStep := (context).(*ProtocolStep); isStep {
+				if gt, ok := step.Type.(*GeneralizedType); ok && gt.Dimensionality == Dimensionality(t) {
+					allowed = true
+				}
+			}
+			if !allowed {
 				errorSink.Add(validationError(node, "!streams can only be declared as top-level protocol sequence elements"))
 			}
 
